@@ -140,6 +140,7 @@ def execute(case, prefix, seed):
     ms.reset_clock()
     g = grid.Grid(S, nclients=1 if phase == "read" else 2, chooser=ch, client_kw=dict(k=K, n=N, happy=1))
     viol, obs = [], {}
+    restore = []
     ms.bound_pending(g)
     try:
         files, dead, replay = layout(case, prep, g)
@@ -185,11 +186,24 @@ def execute(case, prefix, seed):
                     state["failed"].add(sv)
         g.sched.observers.append(observer)
 
+        # what the reader had been told WHEN IT DECIDED: answers that arrive after the servermap update
+        # concluded (while the retrieve is running) cannot have influenced the choice of version.
+        # ServermapUpdater._done is wrapped from the harness; the last decision before the result counts.
+        import allmydata.mutable.servermap as _sm
+        _orig_done = _sm.ServermapUpdater._done
+
+        def _done_snapshot(self):
+            state["decided"] = ({sv: dict(shs) for sv, shs in state["answers"].items()}, set(state["failed"]),
+                                set(e.conn.si for e in g.sched.pending if e.direction == "c2s" and e.meth == "slot_readv"))
+            return _orig_done(self)
+        _sm.ServermapUpdater._done = _done_snapshot
+        restore.append(lambda: setattr(_sm.ServermapUpdater, "_done", _orig_done))
+
         def judge_read(tag, b, client):
-            best, newer, by_vid = analyse(state["answers"], contents_by_vid)
-            pend = set(e.conn.si for e in g.sched.pending if e.conn.ci == client and e.meth == "slot_readv")
-            queried = set(state["answers"]) | state["failed"] | pend
-            summary = "answers=%r" % (sorted((sv, sorted((sh, ms.version_id(d)[0]) for sh, d in shs.items())) for sv, shs in state["answers"].items()),)
+            answers, failed, pend = state.pop("decided", None) or (state["answers"], state["failed"], set(e.conn.si for e in g.sched.pending if e.conn.ci == client and e.meth == "slot_readv"))
+            best, newer, by_vid = analyse(answers, contents_by_vid)
+            queried = set(answers) | failed | pend
+            summary = "answers when the servermap update concluded=%r" % (sorted((sv, sorted((sh, ms.version_id(d)[0]) for sh, d in shs.items())) for sv, shs in answers.items()),)
             if not b:
                 obs[tag] = "hang"
                 viol.append(("read-never-completes", "%s: no result; %s" % (tag, summary)))
@@ -267,6 +281,7 @@ def execute(case, prefix, seed):
                                 contents_by_vid[vid] = new
                 # a later reader
                 state["answers"], state["failed"] = {}, set()
+                state.pop("decided", None)
                 node2 = g.clients[1].create_node_from_uri(prep["cap_r"])
                 b2 = lib_mut.download(g, node2, explore=False)
                 judge_read("read-after-publish", b2, 1)
@@ -275,6 +290,8 @@ def execute(case, prefix, seed):
             viol.append(("exception-in-timer:" + type(e.value).__name__, e.getTraceback()[-400:]))
         boot.take_logged()
     finally:
+        for fn in restore:
+            fn()
         g.close()
     return ch.trace, viol, obs
 
